@@ -147,11 +147,19 @@ def signum : NInt → NInt
   | small a => small (if a > 0 then 1 else if a < 0 then -1 else 0)
   | big a => if a < 0 then small (-1) else if a = 0 then small 0 else small 1
 
+/-- `a ^ n` computed so that the bases 0, 1, -1 take constant time for astronomically large exponents
+(as num-bigint's `Pow<&BigUint>` does); `Theorems/C06.ipow_eq` proves it equal to `a ^ n` -/
+def ipow (a : Int) (n : Nat) : Int :=
+  if a = 0 then (if n = 0 then 1 else 0)
+  else if a = 1 then 1
+  else if a = -1 then (if n % 2 = 0 then 1 else -1)
+  else a ^ n
+
 /-- `pow_maybe_recip`: (reciprocal?, |base|^|exp|) -/
 def powMaybeRecip (x y : NInt) : Bool × NInt :=
   if y.val = 0 then (false, small 1)
-  else if 0 < y.val then (false, big (x.val ^ y.val.toNat))
-  else (true, big (x.val ^ (-y.val).toNat))
+  else if 0 < y.val then (false, big (ipow x.val y.val.toNat))
+  else (true, big (ipow x.val (-y.val).toNat))
 
 def gcd (x y : NInt) : NInt := big (Int.gcd x.val y.val)
 def lcm (x y : NInt) : NInt := big (Int.lcm x.val y.val)
